@@ -25,6 +25,9 @@ import (
 	"github.com/go-openapi/runtime"
 	"github.com/go-openapi/runtime/client"
 	"github.com/go-openapi/strfmt"
+	"github.com/opentracing/opentracing-go"
+	"github.com/opentracing/opentracing-go/mocktracer"
+	oteltrace "go.opentelemetry.io/otel/trace"
 
 	"verif/mon"
 )
@@ -37,9 +40,12 @@ func init() {
 		Rule: "(a) sequential: a fresh client.Runtime per case with a tagged consumer registry (subset of 9 lower-case types, with/without '*/*', default media type registered or not) and a scripted response " +
 			"(Content-Type registered / unregistered / absent / empty / malformed / grey, spelled plain, with parameters, OWS, mixed case; 17 status codes; custom reason phrase; header multiset; body of 0 bytes..1 MiB) served by an in-memory RoundTripper (whose body, like net/http's, fails once the request context is done or the body was closed) or a loopback server (1 in 4: the head is flushed first and the body is written once the reader has been entered, a logical event); " +
 			"the ClientResponseReader records the consumer it was handed (by tag), Code/Message/GetHeader/GetHeaders/Body, the Content-Type and Content-Length headers it is shown, and looks every scripted header up under its canonical, lower-case and upper-case name; tagged RoundTrippers and context values tell which client and which context carried the call (operation-level vs Runtime-level; live, cancelled, nil, deadline already expired, deadline hours away; request timeout default / 0 / hours); a share of cases runs with Runtime.Debug on (null logger). Redirect policy: a 302 + Location answer with the operation client stopping/following, the Runtime made with New or NewWithClient (policy stopping/following, consultations counted), and the mirror cases without an operation client. " +
+			"The body reaches the client at once or in pieces (1 case in 4: in memory no Read crosses the end of a piece - a Read may return less than asked for while more is to come; over loopback every piece is written and flushed on its own); the reader reads it to the end and, 1 in 4, closes it itself once or twice before Submit closes it again. " +
+			"Connection reuse (1 in 6: Runtime.EnableConnectionReuse() or client.KeepAliveTransport around the Runtime's and the operation client's transport). Entry point (1 in 6): the operation is submitted to Runtime.WithOpenTracing() or Runtime.WithOpenTelemetry() instead of the Runtime, its context mostly carrying a span (opentracing no-op tracer or mocktracer, a valid OpenTelemetry span context; also none, or one of the other family): the same judgements apply. " +
 			"A share of the Runtimes gets Runtime.BasePath assigned after client.New (empty, without a leading slash, rooted) and a caller-supplied response adapter (SetResponseReader) that shows the *http.Response as it is; Runtime.Context 'nil' is really nil. " +
 			"(a2) sequences: 2-3 calls on one or two Runtimes; between the calls consumers are added, replaced (new consumer under an existing key), removed, DefaultMediaType is reassigned (the next response mostly names a media type that was touched, or carries no Content-Type), Runtime.Context is replaced by a new tagged context and the replaced one cancelled, and the same *runtime.ClientOperation value is submitted again to the same or to the other Runtime; every call is judged against what the Runtime it is submitted to holds when it is made (the harness's own record of its assignments). " +
 			"(b) concurrent: N=4..64 goroutines released together on a FRESH Runtime (1-2 calls each, unique token in request header+query and in response header+body), GOMAXPROCS in {1,4,16}, " +
+			"1 in 3 with connection reuse on (half of the readers then close the body themselves and go on - a scheduling point - before they return), 1 in 5 with all goroutines submitting to one tracing transport made from the Runtime, scheduling points also inside the caller's reader (entered; body closed), " +
 			"2 in 5 with Runtime.BasePath assigned after client.New, 1 in 8 with Debug on, 1 in 8 with a caller-supplied response adapter, 1 in 4 with ONE operation value submitted by all goroutines; verifhook scheduler (per-goroutine PRNG: nothing / Gosched x k / sleep 10-300us at cl.submit.built, clientReady, beforeDo, afterDo; lock-free, so that it adds no happens-before edges), race detector on. " +
 			"non-trivial: sequential = (registry shape, header kind+spelling+registration, client/context configuration) tuples; sequences = the tuple of their steps' (history, registry change, header feature, client/context configuration); concurrent = runs whose first calls overlapped between cl.submit.built and cl.submit.clientReady (from hook timestamps), distinct by the hash of the merged hook trace",
 		Assumptions: []string{
@@ -55,6 +61,9 @@ func init() {
 			"an operation value for which the caller set no client / no context has none, however often and wherever it was submitted before: it is carried by the client and context of the Runtime it is submitted to now",
 			"a *runtime.ClientOperation whose Params writer and Reader are goroutine-safe may be submitted by several goroutines at once (Submit only reads it)",
 			"Runtime.BasePath is an exported field and may be assigned before the first call, with or without a leading slash; the URL that results is not judged here",
+			"a response reader may close the body it was handed, any number of times, and go on working afterwards; Submit closes the body again when the reader has returned. What Close returns and what a Read after Close yields are not judged",
+			"the transports returned by Runtime.WithOpenTracing() / Runtime.WithOpenTelemetry() are entry points of the same Runtime: the reader of an operation submitted to them is promised the same consumer and the same status, headers and body. An operation value may be shared between goroutines through them as it may with Runtime.Submit (they used to rewrite the caller's value in place: repaired by 94d422b)",
+			"how a body is cut into pieces is the network's business: a single Read may return any non-zero part of what is still to come",
 			"a loopback listener that cannot be had (after retries) is a condition of the machine: the case is classed listen-failed and skipped",
 		},
 		MinNontrivial: 100,
@@ -81,6 +90,16 @@ type Call struct {
 	Rounds   int         `json:"rounds,omitempty"`    // concurrent: calls made by this goroutine (default 1)
 	Fill     int         `json:"fill,omitempty"`      // deterministic filler of this many bytes follows Body in the response
 	Flush    bool        `json:"flush,omitempty"`     // loopback only: the head is flushed first, the body is written once the reader has been entered
+	// Pieces: the body reaches the client in pieces of these sizes (what is left after them is the last piece). In memory one Read
+	// never crosses the end of a piece (a Read may return less than asked for while more is to come); over loopback every piece
+	// is written and flushed on its own, a short pause apart (the pause decides only whether the pieces stay apart, no verdict)
+	Pieces []int `json:"pieces,omitempty"`
+	// ReaderClose: the caller's reader closes the body it was handed when it has read it ("once"), or closes it two times
+	// ("twice"); Submit closes it again afterwards. In concurrent runs the reader then goes on (a scheduling point) before it returns.
+	ReaderClose string `json:"reader_close,omitempty"`
+	// Span: the operation's context (OpCtx) carries an active span: "noop" (opentracing's no-op tracer), "mock" (opentracing's
+	// mocktracer), "otel" (a valid OpenTelemetry span context)
+	Span string `json:"span,omitempty"`
 }
 
 // Conc configures a concurrent run (nil: the single call is made sequentially).
@@ -123,6 +142,21 @@ type Case struct {
 	Adapter bool `json:"adapter,omitempty"`
 	// Steps: a sequential case of several calls (Conc is nil then); Calls is the pool the steps point into
 	Steps []Step `json:"steps,omitempty"`
+	// KeepAlive: connection reuse on every Runtime of the case: "enable" = Runtime.EnableConnectionReuse() before the first call,
+	// "wrap" = Runtime.Transport is client.KeepAliveTransport(the tagged transport); an operation's own client then carries
+	// client.KeepAliveTransport(its tagged transport) too
+	KeepAlive string `json:"keep_alive,omitempty"`
+	// Entry: the transport the operations are submitted to: "" = the Runtime itself, "opentracing" = Runtime.WithOpenTracing(),
+	// "opentelemetry" = Runtime.WithOpenTelemetry() (one such transport per Runtime, made before its first call, shared by all callers)
+	Entry string `json:"entry,omitempty"`
+}
+
+// single is the case of one call alone on a fresh Runtime configured like c's.
+func (c *Case) single(call *Call) *Case {
+	one := *call
+	one.Rounds = 0
+	return &Case{Registry: c.Registry, DefaultMT: c.DefaultMT, RtCtx: c.RtCtx, TCP: c.TCP, Debug: c.Debug, TokenBody: c.TokenBody, BasePath: c.BasePath, Adapter: c.Adapter,
+		KeepAlive: c.KeepAlive, Entry: c.Entry, Calls: []Call{one}}
 }
 
 // ---------------------------------------------------------------------------------------------
@@ -416,6 +450,29 @@ type exec struct {
 	plans    map[string]*plan // token -> plan (read-only while calls run)
 	slots    map[string]*slot // token -> slot (read-only map; each slot written by its own goroutine)
 	rtCancel context.CancelFunc
+	// entries: the transport the operations of a Runtime are submitted to (Case.Entry); filled when the Runtime is made, read-only
+	// while calls run
+	entries map[*client.Runtime]runtime.ClientTransport
+	tracer  *mocktracer.MockTracer // made by prepare when a call wants a mocktracer span
+	// yield: a scheduling point inside the caller's reader (concurrent runs: the hook scheduler; nil otherwise)
+	yield func(point string)
+}
+
+// cutsOf turns piece sizes into the offsets at which the body of n bytes is cut.
+func cutsOf(pieces []int, n int) []int {
+	var cuts []int
+	at := 0
+	for _, p := range pieces {
+		if p <= 0 {
+			continue
+		}
+		at += p
+		if at >= n {
+			break
+		}
+		cuts = append(cuts, at)
+	}
+	return cuts
 }
 
 // bodyOf is the body scripted for the call carrying the token.
@@ -457,6 +514,9 @@ type memBody struct {
 	ctx    context.Context
 	r      *bytes.Reader
 	closed int32
+	// cuts: offsets no single Read crosses (the body arrives in pieces); only the goroutine that reads the body touches them
+	cuts []int
+	size int
 }
 
 var errBodyClosed = errors.New("http: read on closed response body")
@@ -467,6 +527,15 @@ func (b *memBody) Read(p []byte) (int, error) {
 	}
 	if err := b.ctx.Err(); err != nil {
 		return 0, err
+	}
+	if len(b.cuts) > 0 && len(p) > 0 {
+		pos := b.size - b.r.Len()
+		for len(b.cuts) > 0 && b.cuts[0] <= pos {
+			b.cuts = b.cuts[1:]
+		}
+		if len(b.cuts) > 0 && pos+len(p) > b.cuts[0] {
+			p = p[:b.cuts[0]-pos] // a Read may return less than asked for while more is to come
+		}
 	}
 	return b.r.Read(p)
 }
@@ -540,7 +609,7 @@ func (t *memRT) RoundTrip(req *http.Request) (*http.Response, error) {
 		ProtoMajor:    1,
 		ProtoMinor:    1,
 		Header:        h,
-		Body:          &memBody{ctx: req.Context(), r: bytes.NewReader(body)},
+		Body:          &memBody{ctx: req.Context(), r: bytes.NewReader(body), cuts: cutsOf(call.Pieces, len(body)), size: len(body)},
 		ContentLength: int64(len(body)),
 		Request:       req,
 	}, nil
@@ -554,7 +623,14 @@ type tcpRT struct {
 
 func (t *tcpRT) RoundTrip(req *http.Request) (*http.Response, error) {
 	t.x.note(t.tag, req)
-	return t.base.RoundTrip(req)
+	res, err := t.base.RoundTrip(req)
+	if t.x.c.KeepAlive != "" || t.x.c.Entry != "" {
+		// a handler that flushed its head waits for the caller's reader to be entered before it writes the body. Not here: a
+		// keep-alive transport reads the body to its end when Submit closes it (also when the reader never ran), and a transport
+		// in front of the Runtime may look at the body before it enters the caller's reader. The body follows once the head is here.
+		openGate(req.Header.Get("X-Token"))
+	}
+	return res, err
 }
 
 // loopback server shared by the worker process: the response is scripted by the token's plan.
@@ -655,6 +731,21 @@ func server() *httptest.Server {
 						}
 					}
 				}
+				if cuts := cutsOf(call.Pieces, len(body)); len(cuts) > 0 {
+					// every piece leaves on its own; the pause only makes it likely that the client has seen one piece before
+					// the next arrives (no verdict depends on it)
+					fl, _ := w.(http.Flusher)
+					at := 0
+					for _, cut := range append(cuts, len(body)) {
+						_, _ = w.Write([]byte(body[at:cut]))
+						at = cut
+						if fl != nil && cut < len(body) {
+							fl.Flush()
+							time.Sleep(time.Millisecond)
+						}
+					}
+					return
+				}
 				_, _ = w.Write([]byte(body))
 			}
 		}))
@@ -698,6 +789,30 @@ func (x *exec) transport(tag string) http.RoundTripper {
 	return &memRT{tag: tag, x: x}
 }
 
+// entry is the transport the operations of the Runtime are submitted to.
+func (x *exec) entry(rt *client.Runtime) runtime.ClientTransport {
+	if e := x.entries[rt]; e != nil {
+		return e
+	}
+	return rt
+}
+
+// withSpan puts an active span of the given kind into the context.
+func (x *exec) withSpan(ctx context.Context, kind string) context.Context {
+	switch kind {
+	case "noop":
+		return opentracing.ContextWithSpan(ctx, opentracing.NoopTracer{}.StartSpan("c13-parent"))
+	case "mock":
+		if x.tracer != nil {
+			return opentracing.ContextWithSpan(ctx, x.tracer.StartSpan("c13-parent"))
+		}
+	case "otel":
+		return oteltrace.ContextWithSpanContext(ctx, oteltrace.NewSpanContext(oteltrace.SpanContextConfig{
+			TraceID: oteltrace.TraceID{0xc, 0x13, 1, 2, 3, 4, 5, 6, 7, 8, 9, 10, 11, 12, 13, 14}, SpanID: oteltrace.SpanID{0xc, 0x13, 1, 2, 3, 4, 5, 6}, TraceFlags: oteltrace.FlagsSampled}))
+	}
+	return ctx
+}
+
 // tapResp is the caller-supplied response adapter (Runtime.SetResponseReader): it shows the *http.Response as it is.
 type tapResp struct{ res *http.Response }
 
@@ -724,7 +839,15 @@ func (x *exec) newRuntimeTagged(tag, suffix string) *client.Runtime {
 		host = server().Listener.Addr().String()
 	}
 	rt := client.New(host, "/", []string{"http"})
-	rt.Transport = x.transport(tag)
+	switch x.c.KeepAlive {
+	case "enable":
+		rt.Transport = x.transport(tag)
+		rt.EnableConnectionReuse()
+	case "wrap":
+		rt.Transport = client.KeepAliveTransport(x.transport(tag))
+	default:
+		rt.Transport = x.transport(tag)
+	}
 	rt.DefaultMediaType = x.c.DefaultMT
 	rt.Consumers = map[string]runtime.Consumer{}
 	for _, k := range x.c.Registry {
@@ -746,6 +869,12 @@ func (x *exec) newRuntimeTagged(tag, suffix string) *client.Runtime {
 	if x.c.Debug {
 		rt.SetLogger(nullLogger{})
 		rt.Debug = true
+	}
+	switch x.c.Entry {
+	case "opentracing":
+		x.entries[rt] = rt.WithOpenTracing()
+	case "opentelemetry":
+		x.entries[rt] = rt.WithOpenTelemetry()
 	}
 	return rt
 }
@@ -835,10 +964,23 @@ func (x *exec) operation(call *Call, s *slot) (*runtime.ClientOperation, *opBox)
 			s.cts = append([]string(nil), resp.GetHeaders("Content-Type")...)
 			s.cls = append([]string(nil), resp.GetHeaders("Content-Length")...)
 			s.hdrTok = resp.GetHeader("X-Token")
+			if x.yield != nil {
+				x.yield("reader.entered")
+			}
 			b, err := io.ReadAll(resp.Body())
 			s.body = b
 			if err != nil {
 				s.bodyErr = err.Error()
+			}
+			if call.ReaderClose != "" {
+				// a reader may close the body it was handed (Submit closes it again); it is not done yet when it has
+				_ = resp.Body().Close()
+				if call.ReaderClose == "twice" {
+					_ = resp.Body().Close()
+				}
+				if x.yield != nil {
+					x.yield("reader.closed")
+				}
 			}
 			s.mine = &result{token: s.token}
 			return s.mine, nil
@@ -846,9 +988,12 @@ func (x *exec) operation(call *Call, s *slot) (*runtime.ClientOperation, *opBox)
 	}
 	if call.OpClient {
 		op.Client = &http.Client{Transport: x.transport("op")}
+		if x.c.KeepAlive != "" {
+			op.Client.Transport = client.KeepAliveTransport(op.Client.Transport)
+		}
 	}
 	if ctx, cancel := mkCtx(call.OpCtx, "op"); ctx != nil {
-		op.Context, s.cancel = ctx, cancel
+		op.Context, s.cancel = x.withSpan(ctx, call.Span), cancel
 	}
 	return op, box
 }
@@ -860,7 +1005,8 @@ func (x *exec) submit(rt *client.Runtime, call *Call, s *slot) {
 
 // submitOp submits an operation value that exists already for the call.
 func (x *exec) submitOp(rt *client.Runtime, op *runtime.ClientOperation, call *Call, s *slot) {
-	pv, st := mon.Catch(func() { s.result, s.err = rt.Submit(op) })
+	via := x.entry(rt)
+	pv, st := mon.Catch(func() { s.result, s.err = via.Submit(op) })
 	if x.c.TCP && call.Flush {
 		openGate(s.token) // never leave a handler waiting
 	}
@@ -885,7 +1031,12 @@ func tokenOf(nonce int64, i, k int) string {
 // prepare creates the plans and slots of all calls.
 func prepare(c *Case) *exec {
 	caseCounter++
-	x := &exec{c: c, nonce: caseCounter, plans: map[string]*plan{}, slots: map[string]*slot{}}
+	x := &exec{c: c, nonce: caseCounter, plans: map[string]*plan{}, slots: map[string]*slot{}, entries: map[*client.Runtime]runtime.ClientTransport{}}
+	for i := range c.Calls {
+		if c.Calls[i].Span == "mock" && x.tracer == nil {
+			x.tracer = mocktracer.New()
+		}
+	}
 	add := func(i, k int, call *Call) {
 		tok := tokenOf(x.nonce, i, k)
 		x.plans[tok] = &plan{call: call, tcp: c.TCP}
@@ -961,10 +1112,57 @@ type judgeX struct {
 
 func judgeCall(c *Case, call *Call, s *slot) []finding { return judgeCallX(c, call, s, nil) }
 
+// entryClass: the transport the operation went through, when it is not the Runtime itself, with what such a transport is
+// documented to look at (a span in the operation's context, the status class). It is part of every signature of such a call.
+func entryClass(c *Case, call *Call) string {
+	if c.Entry == "" {
+		return ""
+	}
+	cl := "@via-" + c.Entry
+	switch {
+	case call.OpCtx == "":
+		cl += "+no-op-context"
+	case call.Span != "":
+		cl += "+span"
+	default:
+		cl += "+no-span"
+	}
+	if call.Status >= 400 {
+		return cl + "+status>=400"
+	}
+	return cl + "+status<400"
+}
+
+// bodyClass: how the body travels and who closes it; part of the signatures that are about the body.
+func bodyClass(c *Case, call *Call, bodyLen int) string {
+	var f []string
+	if c.KeepAlive != "" {
+		f = append(f, "keep-alive")
+	}
+	if call.ReaderClose != "" {
+		f = append(f, "reader-closes-body")
+	} else if c.Conc != nil {
+		for i := range c.Calls {
+			if c.Calls[i].ReaderClose != "" {
+				f = append(f, "another-reader-closes-body")
+				break
+			}
+		}
+	}
+	if len(cutsOf(call.Pieces, bodyLen)) > 0 {
+		f = append(f, "body-in-pieces")
+	}
+	if len(f) == 0 {
+		return ""
+	}
+	return "/" + strings.Join(f, "+")
+}
+
 func judgeCallX(c *Case, call *Call, s *slot, jx *judgeX) []finding {
 	var fs []finding
+	ec := entryClass(c, call)
 	add := func(sig, format string, args ...interface{}) {
-		fs = append(fs, finding{sig, fmt.Sprintf(format, args...)})
+		fs = append(fs, finding{sig + ec, fmt.Sprintf(format, args...)})
 	}
 	if s.panicV != "" {
 		add("panic", "Submit panicked: %s", s.panicV)
@@ -1130,7 +1328,12 @@ func judgeCallX(c *Case, call *Call, s *slot, jx *judgeX) []finding {
 		}
 	}
 	if string(s.body) != wantBody || s.bodyErr != "" {
-		add("body-altered", "reader read %d bytes %q (err %q), sent %d bytes %q", len(s.body), clip(string(s.body)), s.bodyErr, len(wantBody), clip(wantBody))
+		bc := bodyClass(c, call, len(wantBody))
+		if other := tokenPrefix(string(s.body)); c.TokenBody && other != "" && other != s.token {
+			add("cross-talk/body-of-another-call"+bc, "call with token %q read the body written for token %q: %d bytes %q (err %q)", s.token, other, len(s.body), clip(string(s.body)), s.bodyErr)
+		} else {
+			add("body-altered"+bc, "reader read %d bytes %q (err %q), sent %d bytes %q", len(s.body), clip(string(s.body)), s.bodyErr, len(wantBody), clip(wantBody))
+		}
 	}
 	if s.hdrTok != s.token {
 		add("cross-talk/response-of-another-call", "call with token %q was handed the response carrying token %q", s.token, s.hdrTok)
@@ -1146,6 +1349,17 @@ func judgeCallX(c *Case, call *Call, s *slot, jx *judgeX) []finding {
 		}
 	}
 	return fs
+}
+
+// tokenPrefix is the token a token-carrying body starts with ("" when it does not start with one).
+func tokenPrefix(body string) string {
+	if !strings.HasPrefix(body, "tok-") {
+		return ""
+	}
+	if i := strings.IndexByte(body, '|'); i > 0 && i < 64 {
+		return body[:i]
+	}
+	return ""
 }
 
 func timeoutName(call *Call) string {
